@@ -469,3 +469,52 @@ def _pick_samples(samples, n=12):
     step = max(1, len(out) // n)
     picked = out[::step][:n]
     return picked or samples[:n]
+
+
+# ------------------------------------------------------------------------------------------------
+# development tool: search for a (shrunk) case whose features satisfy an expression and save it as a
+# regress/ replay spec.  Never used by registered checks.
+
+
+def pin_case(prop, test_pattern, when, name, statuses=("ok", "fail"), max_examples=3000):
+    class Found(Exception):
+        pass
+
+    tests = [t for t in prop.tests if fnmatch.fnmatchcase(t.name, test_pattern)]
+    if not tests:
+        raise env.HarnessError(f"no test matches {test_pattern}")
+    for test in tests:
+        best = [None]
+
+        def body(data):
+            case = HypCase(data)
+            try:
+                out = test.body(case)
+            except Reject:
+                return
+            if out.status in statuses and eval_when(when, dict(case.features, status=out.status, kind=out.kind)):
+                cand = (len(case.choices), [abs(c) for c in case.choices])
+                if best[0] is None or cand < best[0][0]:
+                    best[0] = (cand, list(case.choices), out, _jsonable(case.features))
+                raise Found()
+
+        runner = settings(max_examples=max_examples, database=None, deadline=None, suppress_health_check=list(HealthCheck),
+                          phases=(Phase.generate, Phase.shrink), report_multiple_bugs=False)(
+            hypothesis.seed(12345)(given(st.data())(body)))
+        try:
+            runner()
+        except Found:
+            pass
+        if best[0] is not None:
+            _, choices, out, feats = best[0]
+            d = os.path.join(env.VERIF_DIR, "regress", prop.pid)
+            os.makedirs(d, exist_ok=True)
+            path = os.path.join(d, name + ".json")
+            with open(path, "w") as f:
+                json.dump({"property": prop.pid, "test": test.name, "choices": choices, "when": when,
+                           "status_when_pinned": out.status, "kind": out.kind, "detail": out.detail,
+                           "case": out.sample, "features": feats}, f, indent=1, default=repr)
+            print(f"pinned {path}: status={out.status} kind={out.kind} {out.detail}")
+            return path
+    print("no case found")
+    return None
